@@ -25,6 +25,11 @@ CHECKS = {
             "timestamp/unit wiring, of `record iff processed`, of int fallback, of key agreement between LocationAction "
             "and every builder, and of the presence of a critical section around check+record (the static stand-in for "
             "all interleavings). Two genuine defects are listed as known findings.", "4/C04"),
+    "C05": ("shape/dominance rules of the bounded collector, queue-discipline (FIFO) rule, decision table of the budget check, limit wiring by origin expansion",
+            "Static decision, for every object graph and limit setting, of the structural bounds: slice+flag of truncation, "
+            "count check dominating every sequence append, depth refusal before children and depth=parent+1, budget check "
+            "dominating recording and stopping the search, FIFO work list (=> breadth-first, shallower variables win), "
+            "each limit wired to its own key.", "4/C05"),
     "C09": ("who-may-call / thread-role reachability over the resolved call graph, exactly-once path-shape rules, escape analysis of flush, lock discipline",
             "Static rules deciding, for every schedule and fault placement, the structural clauses: conversion and "
             "sending are unreachable from the application thread, each hand-over is submitted exactly once on every "
